@@ -45,7 +45,10 @@ def generate(seed_: int, run: int, reactions: list[str]) -> dict:
         files.append(("model", name, fp))
     # systematic part: run r always dumps entry r of the doubled pool (folded, then unfolded forms),
     # so that a quick run covers every class whatever the random picks are
-    ops.append({"op": "dump_expr", "e": run, "file": "sweep.pkl"})
+    sweep_op = {"op": "dump_expr", "e": run, "file": "sweep.pkl"}
+    if rng.random() < 0.3:
+        sweep_op["interrupt"] = rng.choice([1, 2, 3, 4, 5, 6, 8, 10, 13, 17, 25, 40])
+    ops.append(sweep_op)
     files.append(("expr", "sweep.pkl", False))
     for k in range(rng.choice([1, 2, 3]) if n_models else rng.choice([2, 3, 4])):
         name = f"expr{k}.pkl"
